@@ -55,6 +55,51 @@ def gen_nonce():
     return vlib.write_if_changed(os.path.join(GEN, "Nonce.lean"), out)
 
 
+def gen_noncegen():
+    """constants of calculate_add_nonce_with_retry: which pseudo-random source the configured build
+    uses for the back-jump of the second time stamp, and the two constants of that branch"""
+    from extract import c_eval, src, HEADER, GEN
+    v = c_eval('#include "MHD_config.h"\n#include "digestauth.c"\n'
+               '#ifdef HAVE_RANDOM\n#define VERIF_RSRC 0\n#elif defined(HAVE_RAND)\n#define VERIF_RSRC 1\n'
+               '#else\n#define VERIF_RSRC 2\n#endif\n',
+               [("rsrc", "%d", "(int) VERIF_RSRC")],
+               extra=["-ffunction-sections", "-fdata-sections", "-Wl,--gc-sections"])
+    rsrc = int(v["rsrc"])
+    text = src("src/microhttpd/digestauth.c")
+    m = re.search(r"calculate_add_nonce_with_retry \(struct MHD_Connection.*?\n}\n", text, re.S)
+    if not m:
+        raise RuntimeError("calculate_add_nonce_with_retry not found")
+    body = m.group(0)
+    pats = [r"#ifdef HAVE_RANDOM\s+base1 = \(\(uint64_t\) random \(\)\) \^ UINT64_C \((0x[0-9a-fA-F]+)\);\s+base4 = (0x[0-9a-fA-F]+);",
+            r"#elif defined\(HAVE_RAND\)\s+base1 = \(\(uint64_t\) rand \(\)\) \^ UINT64_C \((0x[0-9a-fA-F]+)\);\s+base4 = (0x[0-9a-fA-F]+);"]
+    if rsrc > 1:
+        raise RuntimeError("calculate_add_nonce_with_retry: this build has neither random() nor rand(): the back-jump "
+                           "depends on a stack address, lean/Mhd/Model/NonceGen.lean (jumpBack) must be revised")
+    mm = re.search(pats[rsrc], body)
+    shape = [r"base2 = \(\(uint32_t\) \(base1 >> 32\)\) \^ \(\(uint32_t\) base1\);\s+"
+             r"base2 = _MHD_ROTL32 \(base2, \(\(\(base4 >> 4\) \^ base4\) % 32\)\);\s+"
+             r"base3 = \(\(uint16_t\) \(base2 >> 16\)\) \^ \(\(uint16_t\) base2\);\s+"
+             r"base4 = \(\(uint8_t\) \(base3 >> 8\)\) \^ \(\(uint8_t\) base3\);\s+"
+             r"/\* Use up to 127 ms difference \*/\s+"
+             r"timestamp2 -= \(base4 & DAUTH_JUMPBACK_MAX\);\s+"
+             r"if \(timestamp1 == timestamp2\)\s+timestamp2 -= (\d+);"]
+    ms = re.search(shape[0], body)
+    if not mm or not ms:
+        raise RuntimeError("calculate_add_nonce_with_retry: the back-jump computation no longer has the shape "
+                           "modelled in lean/Mhd/Model/NonceGen.lean (jumpBack / retryTime)")
+    out = HEADER % "src/microhttpd/digestauth.c (calculate_add_nonce_with_retry), MHD_config.h" \
+        + "namespace Mhd.Gen.NonceGen\n" \
+        + "/-- pseudo-random source of the configured build: 0 = `random ()`, 1 = `rand ()` -/\n" \
+        + "def retrySource : Nat := %d\n" % rsrc \
+        + "/-- the constant xor-ed to the pseudo-random value (`base1`) -/\n" \
+        + "def retryXor : Nat := %d\n" % int(mm.group(1), 16) \
+        + "/-- the initial `base4` -/\ndef retryBase4 : Nat := %d\n" % int(mm.group(2), 16) \
+        + "/-- the fallback difference when the jump is 0 (`timestamp2 -= 2`) -/\n" \
+        + "def retryFallback : Nat := %d\n" % int(ms.group(1)) \
+        + "end Mhd.Gen.NonceGen\n"
+    return vlib.write_if_changed(os.path.join(GEN, "NonceGen.lean"), out)
+
+
 # ------------------------------------------------------- independent oracle
 
 def fsh(data):
